@@ -359,7 +359,7 @@ StoreX == << SP(<<97, 49>>, Dig(2)), SP(<<97, 50>>, <<50, 46, 53>>), SP(<<98, 49
 C09MixedText == { [st |-> Select(<<F(ACall("substr", <<AKey, AInt(0), AInt(1)>>), "p"), f>>, All, <<>>, <<1>>, NoLim), sid |-> "X"] :
               f \in { F(Call1("sum", AVal), "s"), F(Call1("avg", AVal), "av"), F(Call1("min", AVal), "m"), F(Call1("max", AVal), "x"), F(ABin("-", Call1("max", AVal), Call1("min", AVal)), "r") } }
 \* quantile: approximate by definition (the contract leaves its value open), but total for every percent
-QPcts == { AInt(0), AInt(1), AFlt(1, 1), AFlt(1, 2), ABin("-", AInt(0), AFlt(1, 1)), ABin("-", AInt(0), AInt(1)), ABin("-", AInt(1), AFlt(1, 1)), AFlt(3, 1) }
+QPcts == { Call1("float", AStr(<<110, 97, 110>>)), Call1("float", AStr(<<73, 110, 102>>)), AInt(0), AInt(1), AFlt(1, 1), AFlt(1, 2), ABin("-", AInt(0), AFlt(1, 1)), ABin("-", AInt(0), AInt(1)), ABin("-", AInt(1), AFlt(1, 1)), AFlt(3, 1) }
 C09Quantile == { [st |-> Select(<<F(Call2("quantile", x, q), "q"), F(Call1("count", AInt(1)), "c")>>, All, <<>>, <<>>, NoLim), sid |-> sid] :
                    x \in {Call1("int", AVal), Call1("float", AVal), AVal}, q \in QPcts, sid \in {"I", "E"} }
                \cup { [st |-> Select(<<F(AVal, "g"), F(Call2("quantile", Call1("strlen", AKey), q), "q")>>, All, <<>>, <<1>>, NoLim), sid |-> "G"] : q \in QPcts }
@@ -406,6 +406,13 @@ C05Stmts == {
   Select(<<F(AKey, ""), NV, UV>>, ABin("&", ABin(">", AName("n"), AInt(0)), ABin("!=", AName("u"), AStr(<<55>>))), <<>>, <<>>, Lim(1, 4))
 }
 KA == AName("k")
+\* a select field that is nothing but the name of another one; two fields under one name (the name means the first)
+C05Bare == { Select(<<F(AKey, "zz"), F(AName("zz"), "")>>, ABin("^=", AKey, AStr(a)), <<>>, <<>>, NoLim),
+             Select(<<F(AKey, "zz"), F(AName("zz"), "y"), F(Call1("upper", AName("y")), "u")>>, ABin("!=", AName("zz"), AStr(ab)), <<>>, <<>>, NoLim),
+             Select(<<NV, F(AName("n"), ""), F(ABin("+", AName("n"), AInt(1)), "m"), F(AName("m"), "")>>, ABin(">", AName("m"), AInt(2)), <<>>, <<>>, NoLim),
+             Select(<<F(AKey, "d"), F(AVal, "d")>>, ABin("^=", AName("d"), AStr(a)), <<>>, <<>>, NoLim),
+             Select(<<F(AKey, "d"), F(AVal, "d"), F(ABin("+", AName("d"), AStr(<<33>>)), "e")>>, ABin("!=", AName("d"), AStr(a)), <<>>, <<>>, NoLim),
+             Select(<<F(AVal, "d"), F(Call1("int", AVal), "d"), F(AKey, "")>>, ABin("!=", AName("d"), AStr(<<50>>)), <<O(1, TRUE)>>, <<>>, NoLim) }
 C05LitLeft == { Select(<<F(AKey, "k"), NV>>, w, <<>>, <<>>, NoLim) :
                   w \in { ABin(">", AStr(c1), KA), ABin("<=", AStr(ab), KA), ABin("&", ABin("<", AStr(a), KA), ABin(">=", AStr(c2), KA)), ABin("=", AStr(bb), KA), ABin("^=", KA, AStr(a)),
                           ABetween(KA, AStr(ab), AStr(c1)), AIn(KA, <<AStr(a), AStr(dd)>>) } }
@@ -418,7 +425,7 @@ C05Multi == {
   \* the name of an aggregate inside another aggregate field: each group its own value, in both modes, several groups per poll
   Select(<<F(ACall("substr", <<AKey, AInt(0), AInt(1)>>), "p"), F(Call1("count", AInt(1)), "c"), F(ABin("+", Call1("sum", Call1("strlen", AKey)), AName("c")), "t")>>, All, <<>>, <<1>>, NoLim),
   Select(<<F(AVal, "v"), F(Call1("count", AInt(1)), "c"), F(ABin("*", Call1("max", Call1("strlen", AKey)), AName("c")), "t"), F(ABin("-", AName("c"), Call1("min", Call1("strlen", AKey))), "u")>>, ABin("!=", AName("v"), AStr(<<120>>)), <<>>, <<1>>, NoLim) }
-C05Cases == { [st |-> st, sid |-> sid] : st \in C05Stmts \cup C05Multi \cup C05LitLeft, sid \in {"I", "S7", "S40", "E"} } \cup C05Pt
+C05Cases == { [st |-> st, sid |-> sid] : st \in C05Stmts \cup C05Multi \cup C05LitLeft \cup C05Bare, sid \in {"I", "S7", "S40", "E"} } \cup C05Pt
 
 -----------------------------------------------------------------------------
 (* c05k: the cases of the KvCache design model as real statements.  Rows k1..kn with value i; the key condition K
